@@ -3,12 +3,16 @@ from verif.bounded import fuzz_job
 import verif.contracts  # noqa
 import verif.harness.psbt as hp
 
-CONTRACTS = [n for n, c in REG.contracts.items() if "C10" in c.props]
+ALL = [n for n, c in REG.contracts.items() if "C10" in c.props]
+# whole-PSBT contracts over arbitrary bytes: the BIP174 parser on a fully symbolic byte string does not terminate within any
+# sensible budget in pyvc (every key/value length is a branch); they are executable contracts for the run-time companion only
+RUNTIME_ONLY = ["verif.harness.psbt.combine_raw", "verif.harness.psbt.finalize_extract"]
+CONTRACTS = [n for n in ALL if n not in RUNTIME_ONLY]
 TABLES = []
 
 # The property's own quantifiers.  One job per (script kind, wallet size) so that the 16-process pool is used evenly;
 # n = 4 wallets run in the thorough tier only (split by m).
-BOUNDED = [("rt-contracts", fuzz_job(CONTRACTS))]
+BOUNDED = [("rt-contracts", fuzz_job(ALL))]
 for _kind in hp.KINDS_MULTI:
     BOUNDED.append(("workflow-%s-n1n2" % _kind, hp.job_workflow((_kind,), (1, 2))))
     for _m in (1, 2, 3):
@@ -42,8 +46,8 @@ EXPLANATION = ("PSBT codec and workflow.  Deductive part: the key-value record e
 CATEGORY = "other"
 LEVEL_TEXT = ("Mixed: symbolic proofs (z3) for the record-level codec obligations; bounded-exhaustive executable contracts for the workflow "
               "obligations, which are stated over a finite quantifier in the property itself (wallets, subsets, permutations) but whose "
-              "byte contents (keys, amounts, unknown records) are sampled deterministically, hence 'other' and not 'proof'.  Several clauses "
-              "are violated by the pinned tree (see KNOWN-FINDING / VIOLATION lines and notes/C10_C11.md).")
+              "byte contents (keys, amounts, unknown records) are sampled deterministically, hence 'other' and not 'proof'.  The two whole-PSBT "
+              "contracts over arbitrary bytes (combine_raw, finalize_extract) are run-time contracts only.  The defects these checks found on the pinned tree are repaired by fix: commits in /repo (one `fixed:` line each in /verif/KNOWN_FINDINGS.jsonl) (see notes/C10_C11.md).")
 LEVEL_NOTE = ("trusted: pyvc translation (A-ENGINE), spec functions (A-SPEC), CPython builtin contracts (A-BUILTIN), harness builders; "
               "script verification of the final transaction is the library's own (C06/C07); termination not verified")
 JOB_TIMEOUT = {"quick": 240, "thorough": 1500}
